@@ -35,7 +35,10 @@ Proof. vm_compute. split; reflexivity. Qed.
 
 Lemma restart_refuted : ~ C11_full.
 Proof.
-  intros H. specialize (H (Some w_upper) [w_lower] 1000 w_ops).
-  unfold restart_same_view in H. cbv zeta in H.
-  destruct witness_mkdir as [A B]. cbv zeta in A, B. rewrite A, B in H. discriminate.
+  intros H. pose proof (H (Some w_upper) [w_lower] 1000 w_ops) as H1.
+  assert (E : String.eqb
+                (ser_opt (view (load_all (restart (run_dumps w_ops (load_all (fresh (Some w_upper) [w_lower] 1000)))))))
+                (ser_opt (view (load_all (run_dumps w_ops (load_all (fresh (Some w_upper) [w_lower] 1000)))))) = false)
+    by (vm_compute; reflexivity).
+  apply String.eqb_neq in E. apply E. exact H1.
 Qed.
